@@ -29,6 +29,13 @@ Definition parse_script (s : bytes) : option (list op) :=
 (* interface instances 0 and 1 have task spawning enabled, 2 and 3 have it disabled *)
 Definition spawn_of (k : nat) : bool := Nat.ltb k 2.
 
+(* head of a call token: kind letter, interface digit(s), optional `!` = NO_REPLY_EXPECTED (method calls only) *)
+Definition strip_bang (ks : bytes) : bytes * bool :=
+  match rev ks with
+  | l :: r => if beq l "!"%byte then (rev r, true) else (ks, false)
+  | [] => (ks, false)
+  end.
+
 Definition parse_call (getters : list (list op)) (id : nat) (w : bytes) : option call :=
   let '(hd, script) := match split_on ":"%byte w with
                        | [h] => (h, Some [])
@@ -36,21 +43,24 @@ Definition parse_call (getters : list (list op)) (id : nat) (w : bytes) : option
                        | _ => ([], None)
                        end in
   match hd, script with
-  | c :: ks, Some sc =>
+  | c :: ks0, Some sc =>
       if beq c "n"%byte then
-        (if is_nil ks then Some {| c_id := id; c_kind := KUnknown; c_if := 0; c_spawn := false; c_script := [] |} else None)
+        (if is_nil ks0 then Some {| c_id := id; c_kind := KUnknown; c_if := 0; c_spawn := false; c_noreply := false; c_script := [] |} else None)
       else
+        let '(ks, bang) := strip_bang ks0 in
         match nat_of_dec ks with
         | Some k =>
             if Nat.ltb k 4 then
-              let mk kind spawn script := Some {| c_id := id; c_kind := kind; c_if := k; c_spawn := spawn; c_script := script |} in
-              if beq c "m"%byte then mk KMut (spawn_of k) sc
-              else if beq c "f"%byte then mk KRef (spawn_of k) sc
-              else if beq c "g"%byte then mk KGet true (nth k getters [])
-              else if beq c "G"%byte then mk KGetAll true (nth k getters [])
-              else if beq c "s"%byte then mk KSetMut true sc
-              else if beq c "t"%byte then mk KSetRef true sc
-              else if beq c "x"%byte then mk KIntro true []
+              let mk kind spawn nr script :=
+                if nr && negb (beq c "m"%byte || beq c "f"%byte) then None
+                else Some {| c_id := id; c_kind := kind; c_if := k; c_spawn := spawn; c_noreply := nr; c_script := script |} in
+              if beq c "m"%byte then mk KMut (spawn_of k) bang sc
+              else if beq c "f"%byte then mk KRef (spawn_of k) bang sc
+              else if beq c "g"%byte then mk KGet true bang (nth k getters [])
+              else if beq c "G"%byte then mk KGetAll true bang (nth k getters [])
+              else if beq c "s"%byte then mk KSetMut true bang sc
+              else if beq c "t"%byte then mk KSetRef true bang sc
+              else if beq c "x"%byte then mk KIntro true bang []
               else None
             else None
         | None => None
@@ -78,6 +88,27 @@ Definition parse_case (line : bytes) : option (list call) :=
         end
       else None
   | _ => None
+  end.
+
+(* the calls whose handler removes the interface it runs on (script op `r2`): (position in the burst, interface) *)
+Fixpoint self_removers_from (i : nat) (ws : list bytes) : list (nat * nat) :=
+  match ws with
+  | [] => []
+  | w :: r =>
+      let rest := self_removers_from (S i) r in
+      match split_on ":"%byte w with
+      | [c :: ks0; sc] =>
+          if existsb (fun o => lbeq o (B "r2")) (split_on "."%byte sc)
+          then match nat_of_dec (fst (strip_bang ks0)) with Some k => (i, k) :: rest | None => rest end
+          else rest
+      | _ => rest
+      end
+  end.
+
+Definition self_removers (line : bytes) : list (nat * nat) :=
+  match words line with
+  | _ :: _ :: _ :: cs => self_removers_from 0 cs
+  | _ => []
   end.
 
 (* ---- observation:  <OK|HANG>#<events joined by ,>  ---- *)
